@@ -61,12 +61,6 @@ Definition spec_event (tg : target) (ev : obj) (shaped : bool) (impl : sx) : boo
   end.
 
 (** * The content clause through the derive model (case kind 4) *)
-Fixpoint raw_nodup (r : raw) : bool :=
-  match r with
-  | RArr l => forallb raw_nodup l
-  | RObj m => Serde.nodup_strs (List.map fst m) && forallb (fun kv => raw_nodup (snd kv)) m
-  | _ => true
-  end.
 
 (** the specification evaluated on the implementation's outcome: a content that conforms to the
     specification's schema (and uses no ruma-only member name) must be accepted; what was accepted
@@ -78,32 +72,9 @@ Definition spec_schema_case (kind ty : str) (t : Serde.ty) (j : json) (impl : sx
     | None => false
     end in
   match impl with
-  | SL [SN 0; SS text] =>
-      match parse_text text with
-      | Some r =>
-          raw_nodup r
-          && match to_canonical r with
-             | Some j2 =>
-                 match Serde.deser SerdeBridge.id_valid t j, Serde.deser SerdeBridge.id_valid t j2 with
-                 | Some v, Some v2 => Serde.val_eqb v v2
-                 | None, _ => true        (* left to the correspondence *)
-                 | Some _, None => false
-                 end
-             | None => true
-             end
-      | None => false
-      end
+  | SL [SN 0; SS text] => SerdeBridge.reread_ok t j text
   | SL [SN 1; SN _] => negb must_accept
   | _ => false
-  end.
-
-Definition model_schema_case (t : Serde.ty) (j : json) : sx :=
-  match Serde.deser SerdeBridge.id_valid t j with
-  | Some v => match Serde.ser t v with
-              | Some j' => SL [SN 0; SS (print j')]
-              | None => sx_bad
-              end
-  | None => SL [SN 1; SN 0]
   end.
 
 Definition run (x : sx) : sx :=
@@ -127,7 +98,7 @@ Definition run (x : sx) : sx :=
                            end)]
   | SL [SL [SN 4; SS kind; SS ty; content]; impl] =>
       match json_of_sx content, SerdeBridge.find_schema kind ty content_schemas with
-      | Some j, Some t => SL [model_schema_case t j; sx_bool (spec_schema_case kind ty t j impl)]
+      | Some j, Some t => SL [SerdeBridge.model_schema_case t j; sx_bool (spec_schema_case kind ty t j impl)]
       | _, _ => sx_bad
       end
   | SL [SL [SN 3; SS _t; SS _text]; impl] =>
